@@ -38,11 +38,11 @@ def scenarios(ctx):
     cfgs = defect_configs()
     out = []
     flagsets = [{}, {"quiet": True}, {"stub": True}, {"ignoreParams": True}, {"ignoreServices": True}, {"ignoreParams": True, "ignoreServices": True, "quiet": True}]
-    pres = ["absent", "present", "dir", "parent-missing"]
+    pres = ["absent", "present", "present-long", "dir", "parent-missing"]
     for name, cfg in cfgs.items():
         for fl in flagsets:
             for pre in pres:
-                if ctx.quick and (hash((name, str(fl), pre)) % 3) and not (name == "valid" or pre == "present"):
+                if ctx.quick and (hash((name, str(fl), pre)) % 3) and not (name == "valid" or pre in ("present", "present-long")):
                     continue
                 outp = "outdir/sub/gen.go" if pre == "parent-missing" else "out/gen.go"
                 out.append({"name": "%s|%s|%s" % (name, ",".join(sorted(fl)) or "-", pre), "files": {"cfg/a.yaml": gen.yaml_doc(cfg)},
@@ -84,6 +84,8 @@ def judge(sc, r):
         v.append(("exit0-without-output", "exit 0 but the -o path was not written (before=%s after=%s)" % (c["before"], c["after"])))
     if c["exit"] == 0 and c["text"] is not None and not (c["text"].startswith("// Code generated") or c["text"].lstrip().startswith("//go:build gontainerstub")):
         v.append(("incomplete-output", "exit 0 but the file does not start like a generated source"))
+    if c["exit"] == 0 and c["text"] is not None and "// previous content" in c["text"]:
+        v.append(("output-not-replaced", "exit 0 but the -o file still holds remains of its previous content: it is not exactly the generated source"))
     if c["exit"] != 0 and wrote:
         v.append(("failure-touched-output", "exit %d but the -o path changed: before=%s after=%s" % (c["exit"], c["before"], c["after"])))
     quiet = sc["flags"].get("quiet")
@@ -118,7 +120,7 @@ def run(ctx, scs=None):
         c = r["cli"]
         dist["exit0" if c["exit"] == 0 else "exit1"] += 1
         dist["quiet"] += bool(sc["flags"].get("quiet"))
-        dist["pre_present"] += sc.get("pre") == "present"
+        dist["pre_present"] += sc.get("pre") in ("present", "present-long")
         dist["write_fault"] += sc.get("pre") in ("dir", "parent-missing")
         seen.add(sc["name"].split("|")[0] + "|" + sc.get("pre", ""))
         for sig, what in judge(sc, r):
